@@ -419,10 +419,14 @@ class Molecules:
         all_quat = np.concatenate(quat, axis=0)
         if concat_features:
             how = "diagonal" if nullable else "vertical"
+            # Empty tables have no rows to contribute, and their (possibly Null-typed)
+            # schema must not constrain the dtypes of the concatenated features.
+            moles = [mol for mol in moles if mol.count() > 0]
+            features = [mol.features for mol in moles]
             if nullable:
                 schema = _merged_schema(features)
                 features = [_features_or_nulls(mol, schema) for mol in moles]
-            all_features = pl.concat(features, how=how)
+            all_features = pl.concat(features, how=how) if features else None
         else:
             all_features = None
 
